@@ -24,7 +24,7 @@ from .interp import (
     SVar,
 )
 from .term import Mat, Rat, Vec
-from .units import DIMENSIONLESS, Unit, UnitError, parse_unit
+from .units import DIMENSIONLESS, NO_UNIT, Unit, UnitError, parse_unit
 
 FLOATS = ('float64', 'float32')
 INTS = ('int64', 'int32')
@@ -151,14 +151,18 @@ class Model:
             return SVar(None, None, None, why=v.why)
         raise AnalysisError(f'cannot lift {v!r} to a scipp value')
 
-    def raw(self, interp, x: SVar, node) -> SVar:
+    def raw(self, interp, x: SVar, node, attr: str = 'values') -> SVar:
         """x.value / x.values: the bare number(s) in x's unit."""
         t = None
-        if isinstance(x.term, Rat) and x.unit is not None:
+        if isinstance(x.term, Rat | Vec) and x.unit is not None:
             t = x.term / x.unit.scale()
-        r = self.new(interp, t, DIMENSIONLESS, x.dtype, taint=x.taint, why=x.why or 'raw value')
+        dt = 'float64' if x.dtype in ('vector3', 'linear_transform3') else x.dtype
+        r = self.new(interp, t, DIMENSIONLESS, dt, taint=x.taint, why=x.why or 'raw value')
         r.kind = 'raw'
         r.view_of = x
+        r.members['raw_of_unit'] = x.unit
+        r.members['is_array'] = attr != 'value'
+        r.members['was_vector'] = isinstance(x.term, Vec)
         interp.event('raw-value', node, unit=repr(x.unit), tainted=x.taint,
                      params=sorted(x.unit.param_syms()) if x.unit else [])
         return r
@@ -403,6 +407,8 @@ class Model:
         if attr == 'unit':
             if self.binned_mode and v.taint:
                 interp.event('binned-unsafe-access', node, attr='unit', stmt=_text(node))
+            if v.unit == NO_UNIT:
+                return None
             return v.unit if v.unit is not None else Opaque('unit of ⊤')
         if attr == 'dtype':
             if self.binned_mode and v.taint:
@@ -415,7 +421,7 @@ class Model:
         if attr in ('value', 'values'):
             if self.binned_mode and v.taint:
                 interp.event('binned-unsafe-access', node, attr=attr, stmt=_text(node))
-            return self.raw(interp, v, node)
+            return self.raw(interp, v, node, attr)
         if attr in ('variance', 'variances'):
             r = self.new(interp, None, v.unit ** 2 if v.unit else None, v.dtype, v.taint, 'variances')
             r.view_of = v
@@ -424,6 +430,8 @@ class Model:
             return BoundModel(v, 'fields')
         if attr == 'ndim' and 'dims' in v.members:
             return len(v.members['dims'])
+        if attr == 'shape' and v.kind == 'raw' and v.members.get('was_vector'):
+            return (3,)
         if attr in DIM_ATTRS:
             if v.taint and attr in ('size', 'shape', 'sizes'):
                 interp.event('shape-of-tainted', node, attr=attr, stmt=_text(node))
@@ -549,6 +557,9 @@ class Model:
                         raise RaiseSignal('DTypeError', node, interp.where(node) + ' [vector conversion]')
         r = self.new(interp, v.term, new_unit, new_dtype, v.taint, v.why)
         r.hist = v.hist
+        if v.kind == 'raw':
+            r.kind = 'raw'
+            r.members.update(v.members)
         if dtype_changes is True and new_dtype in FLOATS:
             self.hist(r, 'cast', v)
         if unit_changes in (True, 'maybe'):
@@ -690,7 +701,7 @@ class Model:
     # ---- scipp creation functions -------------------------------------
     def _unit_arg(self, interp, u, node, default=DIMENSIONLESS):
         if u is None:
-            return default
+            return NO_UNIT
         if isinstance(u, str):
             try:
                 return parse_unit(u)
@@ -709,6 +720,8 @@ class Model:
                   {'variance': None, 'unit': _DEFAULT_UNIT, 'dtype': None})
         val = a['value']
         unit = self._unit_arg(interp, a['unit'], node)
+        if isinstance(val, SVar) and val.kind != 'raw' and isinstance(a['unit'], _DefaultUnit) and val.unit is not None:
+            unit = val.unit
         dtype = norm_dtype(a['dtype'])
         if isinstance(val, SVar):
             # raw value re-labelled with a unit
@@ -802,6 +815,10 @@ class Model:
             t = Vec.literal(*val) * (unit.scale() if unit else 1)
         elif isinstance(val, SVar) and val.kind == 'raw':
             interp.event('raw-relabel', node, unit=repr(unit), stmt=_text(node))
+            if isinstance(val.term, Vec) and unit is not None:
+                t = val.term * unit.scale()
+        elif isinstance(val, SVar) and isinstance(val.term, Vec) and unit is not None:
+            t = val.term * unit.scale()
         return self.new(interp, t, unit, 'vector3', why='vector from data')
 
     def sc_vectors(self, interp, args, kwargs, node):
@@ -1003,7 +1020,9 @@ class Model:
         return _Reducer(self, interp, items)
 
     def sc_index(self, interp, args, kwargs, node):
-        return self.new(interp, None, DIMENSIONLESS, 'int64', why='index')
+        v = args[0] if args else kwargs.get('value')
+        t = Rat.const(v) if isinstance(v, int) and not isinstance(v, bool) else None
+        return self.new(interp, t, NO_UNIT, norm_dtype(kwargs.get('dtype')) or 'int64', why='index')
 
     def sc_DType(self, interp, args, kwargs, node):
         return norm_dtype(args[0])
@@ -1023,6 +1042,10 @@ class Model:
             r = self._elementwise(interp, name, lifted, {}, node)
             r.kind = 'pyfloat'
             return r
+        # numpy.stack / numpy.array of a python list whose items are abstract raw values
+        if mod == 'numpy' and name in ('stack', 'array', 'vstack') and args and isinstance(args[0], list | tuple) \
+                and (not args[0] or any(isinstance(x, SVar) for x in args[0])) and all(isinstance(x, SVar | int | float) for x in args[0]):
+            return PyArray(args[0])
         # list-level numpy helpers on concrete python lists (used by table assembly code)
         if mod == 'numpy' and args and isinstance(args[0], list) and all(not isinstance(x, Opaque | SVar) for x in args[0]):
             if name == 'array' and len(args) == 1:
@@ -1198,6 +1221,12 @@ class Model:
                     return None if isinstance(x, Opaque) else False
                 if p in ('scipp.Unit',):
                     return isinstance(x, Unit)
+                if p == 'numpy.ndarray':
+                    if isinstance(x, SVar):
+                        return x.kind == 'raw' and bool(x.members.get('is_array', True))
+                    if isinstance(x, PyArray):
+                        return True
+                    return None if isinstance(x, Opaque) else False
                 if p in ('datetime.datetime', 'datetime.date'):
                     import datetime as _dt
                     if isinstance(x, SVar | SObj | Unit):
@@ -1226,6 +1255,26 @@ class Model:
             return None
         r = one(t)
         return Opaque('isinstance') if r is None else r
+
+
+class PyArray(list):
+    """A numpy array built from a python list of abstract values (1-d view)."""
+
+    @property
+    def shape(self):
+        return (len(self),)
+
+    @property
+    def size(self):
+        return len(self)
+
+    ndim = 1
+
+    def astype(self, *a, **k):
+        return self
+
+    def squeeze(self):
+        return self
 
 
 class _Constituent:
